@@ -71,7 +71,11 @@ func runLockup(seed uint64, n int, outDir string, replay string) {
 			// the database is one of the three storage engines: a block's reads of
 			// its own uncommitted lockup writes and deletes go through the engine's batch
 			var mdb ethdb.Database = rawdb.NewMemoryDatabase(log.Global)
-			switch rc.Intn(4) {
+			engine := rc.Intn(4)
+			if e := os.Getenv("QVH_ENGINE"); e != "" {
+				engine = int(e[0] - '0')
+			}
+			switch engine {
 			case 0:
 				if d, err := rawdb.NewLevelDBDatabase(fmt.Sprintf("%s/lk-l%d", lkTmp, c), 16, 16, "", false, log.Global, evLoc); err == nil {
 					mdb = d
@@ -133,15 +137,21 @@ func runLockup(seed uint64, n int, outDir string, replay string) {
 			owed := map[key]*big.Int{}
 			zeroUnlock := map[key]bool{}
 			nops := 6 + rc.Intn(25)
-			var again *key
+			var again, readNext *key
 			for i := 0; i < nops; i++ {
 				k := pickKey()
 				x := rc.Intn(100)
 				forcedPlain := false
 				if again != nil {
-					// directed: the same tranche once more (a claim after a reverted claim, a claim after a successful one)
+					// directed: the same tranche once more (a claim after a reverted claim, after a successful one, after a
+					// reward added in this block), then a read of it
 					k, x, forcedPlain = *again, 60, true
 					again = nil
+					kk := k
+					readNext = &kk
+				} else if readNext != nil {
+					k, x = *readNext, 80
+					readNext = nil
 				}
 				oa, ma := lkAddr(k.o, false), lkAddr(0x10+k.m, false)
 				switch {
@@ -159,6 +169,9 @@ func runLockup(seed uint64, n int, outDir string, replay string) {
 						unlockHeight = uint64(k.e+1+uint32(rc.Intn(2))) * params.CoinbaseEpochBlocks // exactly on an epoch boundary
 					}
 					value := big.NewInt(int64(rc.Intn(1000)))
+					// a reward arrives with a coinbase ETX, which is a transaction of its own: whatever the contracts claimed
+					// before it belongs to earlier transactions (the EVM's per-transaction claim bookkeeping starts afresh)
+					evm.Reset(evm.TxContext, sdb)
 					before := lkRec(mdb, batch, oa, ma, k.b, k.e)
 					deleted, oldData, _, _, _, err := vm.AddNewLock(sdb, batch, oa, ma, dAddr, common.OneInternal(evLoc), k.b, unlockHeight, k.e, value, evLoc, log.Global, common.Hash{}, true)
 					dd := 0
@@ -186,6 +199,10 @@ func runLockup(seed uint64, n int, outDir string, replay string) {
 					// "no record", so the next reward restarts it and a claim finds nothing)
 					if owed[k] == nil || zeroUnlock[k] {
 						owed[k] = new(big.Int)
+					}
+					if rc.Chance(30) {
+						kk := k
+						again = &kk // a reward added and the tranche claimed in the same block
 					}
 					owed[k].Add(owed[k], value)
 					zeroUnlock[k] = unlockHeight < params.CoinbaseEpochBlocks && (owed[k].Cmp(value) == 0)
